@@ -26,7 +26,8 @@ THEOREMS = {
         "nearestNoteInKey_sticky", "keyTonic_sticky", "keyScale_sticky", "ext2_sticky", "sticky_ext2")],
     "C10": ["IsobarV.C10Ext2." + t for t in (
         "filterByKey_reference", "nearestNoteInKey_reference", "filterByKey_value", "nearestNoteInKey_value",
-        "keyTonic_reference", "keyScale_reference", "keyTonicVal_key", "func_reference", "funcF_const")],
+        "keyTonic_reference", "keyScale_reference", "keyTonicVal_key", "func_reference", "funcF_const")] +
+           ["IsobarV.C10Metropolis." + t for t in ("met_inside", "met_block", "met_wrap")],
     "C12": ["IsobarV.C12Ext2." + t for t in (
         "filterByKey_params_once", "nearestNoteInKey_params_once", "keyTonic_key_once", "keyScale_key_once",
         "func_function_once", "sequenceAction_repeats_untouched_within_pass", "sequenceAction_repeats_once_at_end")],
